@@ -141,6 +141,8 @@ Section C03.
   | tb_cons s it ts s1 a stab s2 rest s3 :
       apply_step (create_step sc cfg ev it) s = (s1, inl a) ->   (* exits, action, entries of it *)
       ms_trans a = Some (fst it) ->
+      ms_exited a = ms_exited (create_step sc cfg ev it) ->
+      ms_entered a = ms_entered (create_step sc cfg ev it) ->
       stab_run s1 stab s2 ->                                     (* default entries until stable *)
       Forall (fun m => ms_trans m = None /\ ms_event m = None) stab ->
       css (m_i s2) = None ->                                     (* stable before the next transition *)
@@ -198,10 +200,11 @@ Section C03.
     induction ts as [|it ts IH]; intros s ex s' H; simpl in H.
     - inversion H; subst. constructor.
     - inversion H as [|? p ps s1 a stab s2 rest ? Ha Hs Hr]; subst.
+      pose proof Ha as Ha'.
+      apply (apply_step_inv ctx X exec_code eval_code emit sc (fun _ => True)) in Ha'.
+      destruct Ha' as (ent & exi & _ & _ & _ & _ & _ & _ & A2 & A3 & A4).
       eapply tb_cons; eauto.
-      + apply (apply_step_inv ctx X exec_code eval_code emit sc (fun _ => True)) in Ha.
-        destruct Ha as (ent & exi & _ & _ & _ & _ & _ & _ & A2 & _).
-        rewrite A2. apply create_step_trans.
+      + rewrite A2. apply create_step_trans.
       + eapply stab_run_trans_none; eauto.
       + eapply stab_run_stops; eauto.
   Qed.
@@ -455,4 +458,666 @@ Section C03.
     - apply StronglySorted_split in HB. rewrite Forall_forall in HB. apply HB, Hb.
   Qed.
 
+  (* ================================================================ tree hypotheses *)
+  Section Tree.
+    (* the part of DESIGN.md section 2 (WF1/WF2, "one tree") used below; the same statements as in
+       Section WF of C02Proofs.v *)
+    Hypothesis Hne : forall n, par n <> Some ""%string.
+    Hypothesis Hanc : forall a b, In b (anc a) -> (depth b < depth a)%Z.
+    Hypothesis Hpc : forall c p, In c (kids p) <-> par c = Some p.
+    Hypothesis Hkids_nodup : forall p, NoDup (kids p).
+    Hypothesis Hdesc_complete : forall a d, In a (anc d) -> In d (desc a).
+
+    Local Notation under := (under sc).
+    Local Notation below := (below sc).
+
+    (* ---------------------------------------------------------------- descendants_for has no duplicates *)
+    (* queue invariant of the breadth-first search: no duplicates, nobody is a strict ancestor of
+       somebody else *)
+    Definition pw (q : list name) : Prop :=
+      NoDup q /\ forall x y, In x q -> In y q -> x <> y -> ~ In x (anc y).
+
+    Lemma pw_step n q : pw (n :: q) -> pw (q ++ kids n).
+    Proof.
+      intros [Hnd Hno]. inversion Hnd as [|? ? Hn Hq]; subst.
+      assert (forall k, In k (kids n) -> In n (anc k)) as Hk.
+      { intros k Hk. apply (anc_par sc Hne Hanc), Hpc, Hk. }
+      split.
+      - apply NoDup_app_intro; [exact Hq|apply Hkids_nodup|].
+        intros x Hx1 Hx2. apply (Hno n x); [left; reflexivity|right; exact Hx1| |apply Hk, Hx2].
+        intros ->. contradiction.
+      - intros x y Hx Hy Hxy Hin. apply in_app_or in Hx. apply in_app_or in Hy.
+        destruct Hx as [Hx|Hx], Hy as [Hy|Hy].
+        + apply (Hno x y); [right; exact Hx|right; exact Hy|exact Hxy|exact Hin].
+        + apply Hpc in Hy. rewrite (anc_some sc Hne Hanc y n Hy) in Hin. destruct Hin as [<-|Hin].
+          * contradiction.
+          * apply (Hno x n); [right; exact Hx|left; reflexivity| |exact Hin]. intros ->. contradiction.
+        + apply (Hno n y); [left; reflexivity|right; exact Hy| |].
+          * intros ->. contradiction.
+          * eapply (anc_tr sc Hanc); [exact Hin|apply Hk, Hx].
+        + apply Hpc in Hy. rewrite (anc_some sc Hne Hanc y n Hy) in Hin. destruct Hin as [<-|Hin].
+          * apply (anc_irr sc Hanc n). apply Hk, Hx.
+          * apply (anc_asym sc Hanc x n Hin). apply Hk, Hx.
+    Qed.
+
+    Lemma bfs_nodup : forall fuel q, pw q -> NoDup (bfs sc fuel q).
+    Proof.
+      induction fuel as [|f IH]; intros q Hq; simpl; [constructor|].
+      destruct q as [|n q]; [constructor|].
+      pose proof (pw_step n q Hq) as Hq'. destruct Hq as [Hnd Hno].
+      inversion Hnd as [|? ? Hn Hqn]; subst.
+      apply NoDup_app_intro; [apply Hkids_nodup|apply IH, Hq'|].
+      intros x Hx1 Hx2. apply bfs_sound in Hx2. destruct Hx2 as (a & Ha & Hr).
+      apply (reach_anc sc Hne Hanc Hpc) in Hr. apply Hpc in Hx1.
+      rewrite (anc_some sc Hne Hanc x n Hx1) in Hr.
+      apply in_app_or in Ha. destruct Ha as [Ha|Ha].
+      - destruct Hr as [<-|Hr]; [contradiction|].
+        apply (Hno a n); [right; exact Ha|left; reflexivity| |exact Hr]. intros ->. contradiction.
+      - assert (In n (anc a)) as Hna by (apply (anc_par sc Hne Hanc), Hpc, Ha).
+        destruct Hr as [<-|Hr]; [exact (anc_irr sc Hanc n Hna)|exact (anc_asym sc Hanc a n Hr Hna)].
+    Qed.
+
+    Lemma desc_nodup a : NoDup (desc a).
+    Proof.
+      apply bfs_nodup. split; [constructor; [intros []|constructor]|].
+      intros x y [<-|[]] [<-|[]] H. contradiction.
+    Qed.
+
+    (* ================================================================ 3. C03_exit_order *)
+    Lemma exit_order_leb_iff a b :
+      exit_order_leb sc a b = true <->
+      (depth b < depth a)%Z \/ (depth a = depth b /\ str_leb a b = true).
+    Proof.
+      unfold exit_order_leb. rewrite zn_leb_iff. simpl. split.
+      - intros [H|[H L]]; [left; lia|right; split; [lia|exact L]].
+      - intros [H|[H L]]; [left; lia|right; split; [lia|exact L]].
+    Qed.
+
+    Lemma exit_order_leb_total a b : exit_order_leb sc a b = true \/ exit_order_leb sc b a = true.
+    Proof. apply zn_leb_total. Qed.
+
+    Lemma exit_order_leb_trans a b c :
+      exit_order_leb sc a b = true -> exit_order_leb sc b c = true -> exit_order_leb sc a c = true.
+    Proof. apply zn_leb_trans. Qed.
+
+    Lemma lca_is_ancestor a b l :
+      least_common_ancestor sc a b = Some l -> In l (anc a) /\ In l (anc b).
+    Proof.
+      unfold least_common_ancestor. intros H. apply find_some in H. destruct H as [H1 H2].
+      split; [exact H1|apply mem_In, H2].
+    Qed.
+
+    (* the exited list of a transition micro step *)
+    Definition exited_of (cfg : list name) (lbl : name) : list name :=
+      filter (fun d => mem d cfg) (sort (exit_order_leb sc) (desc lbl))
+      ++ (if mem lbl cfg then [lbl] else []).
+
+    Lemma create_step_exited cfg ev it tgt :
+      t_target (snd it) = Some tgt ->
+      ms_exited (create_step sc cfg ev it)
+      = exited_of cfg (last_before (least_common_ancestor sc (src it) tgt) (anc (src it)) (src it)).
+    Proof. intros H. unfold create_step. rewrite H. reflexivity. Qed.
+
+    Lemma create_step_entered cfg ev it tgt :
+      t_target (snd it) = Some tgt ->
+      ms_entered (create_step sc cfg ev it)
+      = entered_path (least_common_ancestor sc (src it) tgt) (anc tgt) [tgt].
+    Proof. intros H. unfold create_step. rewrite H. reflexivity. Qed.
+
+    Lemma exited_of_sorted cfg lbl :
+      StronglySorted (fun a b => exit_order_leb sc a b = true) (exited_of cfg lbl).
+    Proof.
+      unfold exited_of.
+      assert (StronglySorted (fun a b => exit_order_leb sc a b = true)
+                (filter (fun d => mem d cfg) (sort (exit_order_leb sc) (desc lbl)))) as Hs.
+      { apply StronglySorted_filter.
+        apply (sort_strongly_sorted (exit_order_leb sc) exit_order_leb_total exit_order_leb_trans). }
+      destruct (mem lbl cfg); [|rewrite app_nil_r; exact Hs].
+      apply StronglySorted_snoc; [exact Hs|].
+      rewrite Forall_forall. intros x Hx. apply filter_In in Hx. destruct Hx as [Hx _].
+      apply sort_In in Hx. apply (desc_iff sc Hne Hanc Hpc Hdesc_complete) in Hx. apply Hanc in Hx.
+      apply exit_order_leb_iff. left. exact Hx.
+    Qed.
+
+    Lemma exited_of_nodup cfg lbl : NoDup (exited_of cfg lbl).
+    Proof.
+      unfold exited_of. apply NoDup_app_intro.
+      - apply NoDup_filter, sort_NoDup, desc_nodup.
+      - destruct (mem lbl cfg); constructor; [intros []|constructor].
+      - intros x Hx1 Hx2. destruct (mem lbl cfg); [|destruct Hx2]. destruct Hx2 as [<-|[]].
+        apply filter_In in Hx1. destruct Hx1 as [Hx1 _]. apply sort_In in Hx1.
+        apply (desc_iff sc Hne Hanc Hpc Hdesc_complete) in Hx1. exact (anc_irr sc Hanc lbl Hx1).
+    Qed.
+
+    Theorem C03_exit_order cfg ev it tgt :
+      t_target (snd it) = Some tgt ->
+      let lca := least_common_ancestor sc (src it) tgt in
+      let lbl := last_before lca (anc (src it)) (src it) in
+      let exited := ms_exited (create_step sc cfg ev it) in
+      (* lbl: the state on the source side just below the LCA (the top state if there is no LCA) *)
+      under lbl (src it) /\ par lbl = lca
+      (* exactly the active states of subtree+(lbl), each once *)
+      /\ (forall x, In x exited <-> In x cfg /\ under lbl x)
+      /\ NoDup exited
+      (* sorted by (depth descending, name ascending) *)
+      /\ StronglySorted (fun a b => exit_order_leb sc a b = true) exited
+      (* innermost first: every state comes after all its active descendants *)
+      /\ (forall l1 x l2 y, exited = l1 ++ x :: l2 -> In y exited -> In x (anc y) -> In y l1)
+      (* states of equal depth (orthogonal siblings and their cousins): by name *)
+      /\ (forall l1 x l2 y l3, exited = l1 ++ x :: l2 ++ y :: l3 -> depth x = depth y ->
+                               str_ltb x y = true)
+      (* lbl itself is exited last *)
+      /\ (In lbl cfg -> exists l, exited = l ++ [lbl]).
+    Proof.
+      intros Ht lca lbl exited.
+      assert (exited = exited_of cfg lbl) as Ee by (apply create_step_exited; exact Ht).
+      assert (forall l, lca = Some l -> In l (anc (src it))) as Hl.
+      { intros l El. apply lca_is_ancestor in El. tauto. }
+      destruct (last_before_spec sc Hne Hanc lca (src it) Hl) as [U P].
+      pose proof (exited_of_sorted cfg lbl) as HS. pose proof (exited_of_nodup cfg lbl) as HN.
+      rewrite <- Ee in HS, HN.
+      split; [exact U|]. split; [exact P|].
+      split; [intros x; rewrite Ee; apply (exited_spec sc Hne Hanc Hpc Hdesc_complete)|].
+      split; [exact HN|]. split; [exact HS|]. split; [|split].
+      - intros l1 x l2 y E Hy Hxy. rewrite E in Hy, HS.
+        apply in_app_or in Hy. destruct Hy as [Hy|[<-|Hy]]; [exact Hy| |]; exfalso.
+        + exact (anc_irr sc Hanc x Hxy).
+        + apply StronglySorted_split in HS. rewrite Forall_forall in HS. specialize (HS y Hy).
+          apply exit_order_leb_iff in HS. apply Hanc in Hxy. lia.
+      - intros l1 x l2 y l3 E Hd. rewrite E in HS, HN.
+        assert (In y (l2 ++ y :: l3)) as Hy by (apply in_or_app; right; left; reflexivity).
+        apply NoDup_remove_2 in HN.
+        apply StronglySorted_split in HS. rewrite Forall_forall in HS. specialize (HS y Hy).
+        apply exit_order_leb_iff in HS. destruct HS as [HS|[_ HS]]; [lia|].
+        apply str_leb_neq_ltb; [exact HS|]. intros ->. apply HN. apply in_or_app. right. exact Hy.
+      - intros Hc. apply mem_In in Hc. rewrite Ee. unfold exited_of. rewrite Hc. eexists. reflexivity.
+    Qed.
+
+    (* ================================================================ 4. C03_entry_order *)
+    (* l is a downward path: the parent of the first element is p, every other element is a child
+       of its predecessor *)
+    Fixpoint is_path (p : option name) (l : list name) : Prop :=
+      match l with
+      | [] => True
+      | x :: r => par x = p /\ is_path (Some x) r
+      end.
+
+    Lemma is_path_anc : forall l p y, is_path (Some p) l -> In y l -> In p (anc y).
+    Proof.
+      induction l as [|x r IH]; intros p y H Hy; [destruct Hy|]. destruct H as [Hp Hr].
+      destruct Hy as [<-|Hy]; [apply (anc_par sc Hne Hanc), Hp|].
+      eapply (anc_tr sc Hanc); [apply (IH x y Hr Hy)|apply (anc_par sc Hne Hanc), Hp].
+    Qed.
+
+    Lemma is_path_nodup : forall l p, is_path p l -> NoDup l.
+    Proof.
+      induction l as [|x r IH]; intros p H; [constructor|]. destruct H as [_ Hr].
+      constructor; [|eapply IH; eauto]. intros Hin.
+      exact (anc_irr sc Hanc x (is_path_anc r x x Hr Hin)).
+    Qed.
+
+    (* the predecessor of x in a path is its parent *)
+    Lemma is_path_split : forall l1 q x l2, is_path q (l1 ++ x :: l2) ->
+      (l1 = [] /\ par x = q) \/ (exists l1' y, l1 = l1' ++ [y] /\ par x = Some y).
+    Proof.
+      induction l1 as [|a l1 IH]; intros q x l2 H; simpl in H.
+      - left. split; [reflexivity|apply H].
+      - right. destruct H as [_ H]. destruct (IH (Some a) x l2 H) as [[-> Hp]|(l1' & y & -> & Hp)].
+        + exists [], a. split; [reflexivity|exact Hp].
+        + exists (a :: l1'), y. split; [reflexivity|exact Hp].
+    Qed.
+
+    Lemma entered_path_is_path lca : forall cur acc,
+      (forall l, lca = Some l -> In l (anc cur)) ->
+      is_path (par cur) acc -> is_path lca (entered_path lca (anc cur) acc).
+    Proof.
+      apply (anc_ind sc Hne Hanc (fun cur => forall acc,
+        (forall l, lca = Some l -> In l (anc cur)) ->
+        is_path (par cur) acc -> is_path lca (entered_path lca (anc cur) acc))).
+      intros cur IH acc Hl Hacc. destruct (par cur) as [p|] eqn:Hp.
+      - rewrite (anc_some sc Hne Hanc cur p Hp), entered_path_cons.
+        destruct (ostr_eqb (Some p) lca) eqn:E.
+        + apply ostr_eqb_iff in E. rewrite <- E. exact Hacc.
+        + apply ostr_eqb_false_iff in E. apply (IH p eq_refl).
+          * intros l El. specialize (Hl l El). rewrite (anc_some sc Hne Hanc cur p Hp) in Hl.
+            destruct Hl as [<-|Hl]; [congruence|exact Hl].
+          * simpl. split; [reflexivity|exact Hacc].
+      - rewrite (anc_none sc cur Hp). simpl.
+        destruct lca as [l|]; [|exact Hacc]. specialize (Hl l eq_refl).
+        rewrite (anc_none sc cur Hp) in Hl. destruct Hl.
+    Qed.
+
+    Lemma entered_path_last lca d : forall l acc,
+      acc <> [] -> last (entered_path lca l acc) d = last acc d.
+    Proof.
+      induction l as [|a l IH]; intros acc Hne'; [reflexivity|]. rewrite entered_path_cons.
+      destruct (ostr_eqb (Some a) lca); [reflexivity|].
+      rewrite IH by discriminate. destruct acc; [congruence|reflexivity].
+    Qed.
+
+    Lemma entered_path_nonempty lca : forall l acc, acc <> [] -> entered_path lca l acc <> [].
+    Proof.
+      induction l as [|a l IH]; intros acc Hne'; [exact Hne'|]. rewrite entered_path_cons.
+      destruct (ostr_eqb (Some a) lca); [exact Hne'|]. apply IH. discriminate.
+    Qed.
+
+    (* transition micro step: the entered list is the path from just below the LCA down to the
+       target, outermost first *)
+    Theorem C03_entry_order cfg ev it tgt :
+      t_target (snd it) = Some tgt ->
+      let lca := least_common_ancestor sc (src it) tgt in
+      let entered := ms_entered (create_step sc cfg ev it) in
+      (* a downward path starting just below the LCA (at a top state if there is no LCA) ... *)
+      is_path lca entered
+      (* ... ending with the target *)
+      /\ entered <> [] /\ last entered tgt = tgt
+      (* its elements: the target and its ancestors strictly below the LCA *)
+      /\ (forall x, In x entered <-> under x tgt /\ below lca x)
+      /\ NoDup entered
+      (* every state is immediately preceded by its parent, unless it is the first *)
+      /\ (forall l1 x l2, entered = l1 ++ x :: l2 ->
+            (l1 = [] /\ par x = lca) \/ (exists l1' p, l1 = l1' ++ [p] /\ par x = Some p))
+      (* a parent that is entered at all is entered before its child *)
+      /\ (forall l1 x l2 p, entered = l1 ++ x :: l2 -> par x = Some p -> In p entered -> In p l1).
+    Proof.
+      intros Ht lca entered.
+      assert (entered = entered_path lca (anc tgt) [tgt]) as Ee by (apply create_step_entered; exact Ht).
+      assert (forall l, lca = Some l -> In l (anc tgt)) as Hl.
+      { intros l El. apply lca_is_ancestor in El. tauto. }
+      assert (is_path lca entered) as HP.
+      { rewrite Ee. apply entered_path_is_path; [exact Hl|]. simpl. auto. }
+      assert (forall x, In x entered <-> under x tgt /\ below lca x) as HI.
+      { intros x. rewrite Ee. apply (entered_spec sc Hne Hanc); exact Hl. }
+      split; [exact HP|].
+      split; [rewrite Ee; apply entered_path_nonempty; discriminate|].
+      split; [rewrite Ee, entered_path_last by discriminate; reflexivity|].
+      split; [exact HI|]. split; [eapply is_path_nodup; eauto|]. split.
+      - intros l1 x l2 E. rewrite E in HP. eapply is_path_split; eauto.
+      - intros l1 x l2 p E Hp Hin. rewrite E in HP.
+        destruct (is_path_split _ _ _ _ HP) as [[-> Hq]|(l1' & y & -> & Hq)].
+        + exfalso. apply HI in Hin. destruct Hin as [_ Hb]. unfold C02Proofs.below in Hb.
+          rewrite <- Hq, Hp in Hb. exact (anc_irr sc Hanc p Hb).
+        + rewrite Hp in Hq. inversion Hq; subst y. apply in_or_app. right. left. reflexivity.
+    Qed.
+
+    (* depth of a child *)
+    Lemma depth_child c p : par c = Some p -> depth c = (depth p + 1)%Z.
+    Proof.
+      intros H. unfold depth_for. rewrite (anc_some sc Hne Hanc c p H). simpl length. lia.
+    Qed.
+
+    (* stabilisation micro steps: what is entered, and in which order *)
+    Theorem C03_entry_order_stab (i : ist) step :
+      css i = Some (inl step) ->
+      ms_trans step = None /\ ms_event step = None /\
+      ( (* default entry of a compound state without active child: its initial state *)
+        (exists n st i0, is_leaf sc (i_config i) n /\ state_for sc n = Some st
+           /\ s_kind st = KCompound /\ truthy (s_initial st) = Some i0
+           /\ ms_entered step = [i0] /\ ms_exited step = [])
+        \/
+        (* an active orthogonal state: all its inactive children, in name order *)
+        (exists n st, In n (i_config i) /\ state_for sc n = Some st /\ s_kind st = KOrthogonal
+           /\ ms_entered step
+              = sort_names (filter (fun ch => negb (mem ch (i_config i))) (kids n))
+           /\ ms_exited step = []
+           /\ StronglySorted (fun a b => str_leb a b = true) (ms_entered step)
+           /\ (forall c, In c (ms_entered step) -> par c = Some n /\ depth c = (depth n + 1)%Z))
+        \/
+        (* an active history state is replaced by its memory, sorted by (depth, name) *)
+        (exists h st, is_leaf sc (i_config i) h /\ state_for sc h = Some st
+           /\ is_history (s_kind st) = true /\ ms_exited step = [h]
+           /\ ((exists l, lookup h (i_memory i) = Some l
+                          /\ ms_entered step = sort (enter_order_leb sc) l)
+               \/ (lookup h (i_memory i) = None
+                   /\ exists m, s_memory st = Some m /\ ms_entered step = [m]))
+           /\ StronglySorted (fun a b => enter_order_leb sc a b = true) (ms_entered step)
+           (* hence parents before children *)
+           /\ (forall l1 a l2 b, ms_entered step = l1 ++ a :: l2 ->
+                 In b (anc a) -> In b (ms_entered step) -> In b l1))
+        \/
+        (* an active final child of the root: leave it and the root *)
+        (exists f st r, is_leaf sc (i_config i) f /\ state_for sc f = Some st /\ s_kind st = KFinal
+           /\ root sc = Some r /\ par f = Some r
+           /\ ms_exited step = [f; r] /\ ms_entered step = [])).
+    Proof.
+      intros Hcss.
+      pose proof (create_stabilization_step_event _ _ _ _ Hcss) as (Ev & Tr & _).
+      split; [exact Tr|]. split; [exact Ev|].
+      assert (forall l, StronglySorted (fun a b => enter_order_leb sc a b = true)
+                          (sort (enter_order_leb sc) l)) as Hsorted.
+      { intros l. apply sort_strongly_sorted.
+        - intros a b. apply zn_leb_total.
+        - intros a b c. apply zn_leb_trans. }
+      assert (forall l l1 a l2 b, sort (enter_order_leb sc) l = l1 ++ a :: l2 ->
+                In b (anc a) -> In b (sort (enter_order_leb sc) l) -> In b l1) as Hparents.
+      { intros l l1 a l2 b E Hb Hin. apply sort_In in Hin.
+        exact (C06Proofs.C06_restore_parents_first sc Hanc l l1 a l2 b E Hb Hin). }
+      assert (forall (m : name) l1 a l2 b, [m] = l1 ++ a :: l2 -> In b (anc a) -> In b [m] -> In b l1)
+        as Hone.
+      { intros m l1 a l2 b E Hb [<-|[]]. destruct l1 as [|z l1].
+        - inversion E; subst. exfalso. exact (anc_irr sc Hanc a Hb).
+        - inversion E as [[E1 E2]]. destruct l1; discriminate. }
+      assert (forall n cfg, forall c, In c (sort_names (filter (fun ch => negb (mem ch cfg)) (kids n))) ->
+                par c = Some n /\ depth c = (depth n + 1)%Z) as Hch.
+      { intros n cfg c Hc. apply sort_In, filter_In in Hc. destruct Hc as [Hc _].
+        apply Hpc in Hc. split; [exact Hc|apply depth_child, Hc]. }
+      apply css_some in Hcss. destruct Hcss as [(n & Hleaf & Hs)|(n & Hn & Hs)].
+      - unfold stab_for_leaf in Hs. destruct (state_for sc n) as [st|] eqn:Est; [|discriminate].
+        destruct (s_kind st) eqn:K.
+        + discriminate.
+        + destruct (truthy (s_initial st)) as [i0|] eqn:Ei; [|discriminate].
+          inversion Hs; subst step. left. exists n, st, i0. repeat split; auto; apply Hleaf.
+        + destruct (kids n) as [|c l] eqn:Ek; [discriminate|].
+          inversion Hs; subst step. right. left. exists n, st. cbn [ms_entered ms_exited].
+          assert (filter (fun ch => negb (mem ch (i_config i))) (kids n) = kids n) as Ef.
+          { apply filter_true_id. intros x Hx. apply negb_true_iff, mem_false_iff.
+            destruct Hleaf as [_ Hd]. apply Hd, kids_desc, Hx. }
+          rewrite Ef, Ek.
+          split; [apply Hleaf|]. split; [exact Est|]. split; [exact K|].
+          split; [reflexivity|]. split; [reflexivity|].
+          split; [apply (sort_names_sorted (c :: l))|].
+          intros x Hx. apply (Hch n (i_config i)). rewrite Ef, Ek. exact Hx.
+        + destruct (ostr_eqb (par n) (root sc)) eqn:Eo; [|discriminate].
+          destruct (root sc) as [r|] eqn:Er; [|discriminate].
+          inversion Hs; subst step. right. right. right. exists n, st, r.
+          apply ostr_eqb_iff in Eo. repeat split; auto; apply Hleaf.
+        + right. right. left. exists n, st. split; [exact Hleaf|]. split; [exact Est|].
+          split; [rewrite K; reflexivity|].
+          destruct (lookup n (i_memory i)) as [l|] eqn:El.
+          * inversion Hs; subst step. cbn [ms_entered ms_exited]. split; [reflexivity|].
+            split; [left; exists l; split; reflexivity|]. split; [apply Hsorted|apply Hparents].
+          * destruct (s_memory st) as [m|] eqn:Em; [|discriminate].
+            inversion Hs; subst step. cbn [ms_entered ms_exited]. split; [reflexivity|].
+            split; [right; split; [reflexivity|exists m; split; reflexivity]|].
+            split; [constructor; constructor|apply Hone].
+        + right. right. left. exists n, st. split; [exact Hleaf|]. split; [exact Est|].
+          split; [rewrite K; reflexivity|].
+          destruct (lookup n (i_memory i)) as [l|] eqn:El.
+          * inversion Hs; subst step. cbn [ms_entered ms_exited]. split; [reflexivity|].
+            split; [left; exists l; split; reflexivity|]. split; [apply Hsorted|apply Hparents].
+          * destruct (s_memory st) as [m|] eqn:Em; [|discriminate].
+            inversion Hs; subst step. cbn [ms_entered ms_exited]. split; [reflexivity|].
+            split; [right; split; [reflexivity|exists m; split; reflexivity]|].
+            split; [constructor; constructor|apply Hone].
+      - unfold stab_for_orthogonal in Hs. destruct (state_for sc n) as [st|] eqn:Est; [|discriminate].
+        destruct (s_kind st) eqn:K; try discriminate.
+        destruct (filter (fun ch => negb (mem ch (i_config i))) (kids n)) as [|c l] eqn:Ef; [discriminate|].
+        inversion Hs; subst step. right. left. exists n, st. cbn [ms_entered ms_exited].
+        split; [exact Hn|]. split; [exact Est|]. split; [exact K|]. rewrite Ef.
+        split; [reflexivity|]. split; [reflexivity|].
+        split; [apply (sort_names_sorted (c :: l))|].
+        intros x Hx. apply (Hch n (i_config i)). rewrite Ef. exact Hx.
+    Qed.
+
+  End Tree.
+
 End C03.
+
+(* ================================================================== a checker for the tree hypotheses *)
+Lemma lookup_In_pair {V} (k : name) (d : list (name * V)) v : lookup k d = Some v -> In (k, v) d.
+Proof.
+  induction d as [|[k' v'] d IH]; simpl; intros H; [discriminate|].
+  destruct (str_eqb k k') eqn:E.
+  - apply str_eqb_spec in E. inversion H; subst. left; reflexivity.
+  - right. apply IH, H.
+Qed.
+
+Lemma olookup_In_pair {V} (k : option name) (d : list (option name * V)) v :
+  olookup k d = Some v -> In (k, v) d.
+Proof.
+  induction d as [|[k' v'] d IH]; simpl; intros H; [discriminate|].
+  destruct (opt_eqb str_eqb k k') eqn:E.
+  - apply ostr_eqb_iff in E. inversion H; subst. left; reflexivity.
+  - right. apply IH, H.
+Qed.
+
+Definition tree_okb (sc : chart) : bool :=
+  forallb (fun kv => negb (ostr_eqb (snd kv) (Some ""%string))) (c_parent sc)
+  && anc_depth_okb sc
+  && forallb (fun kl => match fst kl with
+                        | Some p => forallb (fun c => ostr_eqb (parent_for sc c) (Some p)) (snd kl)
+                        | None => true
+                        end) (c_children sc)
+  && forallb (fun kv => match snd kv with
+                        | Some p => mem (fst kv) (children_for sc p)
+                        | None => true
+                        end) (c_parent sc)
+  && forallb (fun kl => nodup_b (snd kl)) (c_children sc)
+  && forallb (fun kv => forallb (fun a => mem (fst kv) (descendants_for sc a))
+                                (ancestors_for sc (fst kv))) (c_parent sc).
+
+(* tree_okb implies the five hypotheses of Section Tree *)
+Lemma tree_okb_sound sc : tree_okb sc = true ->
+  (forall n, parent_for sc n <> Some ""%string)
+  /\ (forall a b, In b (ancestors_for sc a) -> (depth_for sc b < depth_for sc a)%Z)
+  /\ (forall c p, In c (children_for sc p) <-> parent_for sc c = Some p)
+  /\ (forall p, NoDup (children_for sc p))
+  /\ (forall a d, In a (ancestors_for sc d) -> In d (descendants_for sc a)).
+Proof.
+  unfold tree_okb. rewrite !andb_true_iff, !forallb_forall.
+  intros (((((H1 & H2) & H3) & H4) & H5) & H6).
+  assert (forall p l, olookup (Some p) (c_children sc) = Some l -> children_for sc p = l) as Hk.
+  { intros p l E. unfold children_for. rewrite E. reflexivity. }
+  split; [|split; [|split; [|split]]].
+  - intros n E. unfold parent_for in E. destruct (lookup n (c_parent sc)) as [p|] eqn:El; [|discriminate].
+    apply lookup_In_pair in El. specialize (H1 _ El). simpl in H1. subst p.
+    apply negb_true_iff, ostr_eqb_false_iff in H1. congruence.
+  - apply anc_depth_okb_sound, H2.
+  - intros c p. split.
+    + intros Hc. unfold children_for in Hc.
+      destruct (olookup (Some p) (c_children sc)) as [l|] eqn:El; [|destruct Hc].
+      apply olookup_In_pair in El. specialize (H3 _ El). simpl in H3.
+      rewrite forallb_forall in H3. apply ostr_eqb_iff, H3, Hc.
+    + intros E. unfold parent_for in E. destruct (lookup c (c_parent sc)) as [q|] eqn:El; [|discriminate].
+      subst q. apply lookup_In_pair in El. specialize (H4 _ El). simpl in H4. apply mem_In, H4.
+  - intros p. unfold children_for.
+    destruct (olookup (Some p) (c_children sc)) as [l|] eqn:El; [|constructor].
+    apply olookup_In_pair in El. specialize (H5 _ El). simpl in H5. apply nodup_b_iff, H5.
+  - intros a d Ha. destruct (lookup d (c_parent sc)) as [p|] eqn:El.
+    + apply lookup_In_pair in El. specialize (H6 _ El). simpl in H6.
+      rewrite forallb_forall in H6. apply mem_In, H6, Ha.
+    + exfalso. unfold ancestors_for, parent_for in Ha. rewrite El in Ha.
+      destruct (length (c_parent sc)); simpl in Ha; destruct Ha.
+Qed.
+
+(* ================================================================== 5. non-vacuity *)
+Module C03Examples.
+  Open Scope string_scope.
+  Open Scope list_scope.
+
+  Definition st (n : name) (k : kind) (init : option name) : name * state :=
+    (n, mkState n k init None None None [] [] []).
+  Definition tr (src : name) (tgt : option name) (ev : option name) : transition :=
+    mkTrans src tgt ev None None 0 [] [] [].
+
+  (* root (compound, initial P) > { P, out };
+     P (orthogonal) with three regions DECLARED IN THE ORDER B, C, A:
+       B (compound, initial b1) > { b1, b2 }     C (compound, initial c1) > { c1 }
+       A (compound, initial a1) > { a1, a2 };    a2 (compound, initial a21) > { a21 } *)
+  Definition tB := tr "b1" (Some "b2") (Some "e").    (* index 0 *)
+  Definition tA := tr "a1" (Some "a2") (Some "e").    (* index 1 *)
+  Definition tX := tr "P" (Some "out") (Some "x").    (* index 2 *)
+
+  Definition chart0 : chart :=
+    mkChart "c03" None None
+      [st "root" KCompound (Some "P"); st "P" KOrthogonal None; st "out" KBasic None;
+       st "B" KCompound (Some "b1"); st "C" KCompound (Some "c1"); st "A" KCompound (Some "a1");
+       st "b1" KBasic None; st "b2" KBasic None; st "c1" KBasic None;
+       st "a1" KBasic None; st "a2" KCompound (Some "a21"); st "a21" KBasic None]
+      [("root", None); ("P", Some "root"); ("out", Some "root");
+       ("B", Some "P"); ("C", Some "P"); ("A", Some "P");
+       ("b1", Some "B"); ("b2", Some "B"); ("c1", Some "C");
+       ("a1", Some "A"); ("a2", Some "A"); ("a21", Some "a2")]
+      [(None, ["root"]); (Some "root", ["P"; "out"]); (Some "P", ["B"; "C"; "A"]); (Some "out", []);
+       (Some "B", ["b1"; "b2"]); (Some "C", ["c1"]); (Some "A", ["a1"; "a2"]);
+       (Some "b1", []); (Some "b2", []); (Some "c1", []); (Some "a1", []);
+       (Some "a2", ["a21"]); (Some "a21", [])]
+      [tB; tA; tX].
+
+  (* the tree hypotheses hold for chart0 *)
+  Example chart0_tree_ok : tree_okb chart0 = true.
+  Proof. vm_compute. reflexivity. Qed.
+
+  Definition T0 := tree_okb_sound chart0 chart0_tree_ok.
+  Definition Hne0 := proj1 T0.
+  Definition Hanc0 := proj1 (proj2 T0).
+  Definition Hpc0 := proj1 (proj2 (proj2 T0)).
+  Definition Hkn0 := proj1 (proj2 (proj2 (proj2 T0))).
+  Definition Hdc0 := proj2 (proj2 (proj2 (proj2 T0))).
+
+  (* ---------------------------------------------------------------- exit order *)
+  (* everything is active (a1, b1, c1 in the three regions); P -> out exits both... all three regions *)
+  Definition cfg1 : list name := ["root"; "P"; "B"; "C"; "A"; "b1"; "c1"; "a1"].
+
+  (* the regions are declared B, C, A; the exit order is by depth (innermost first), then by name *)
+  Example ex_exit_order :
+    ms_exited (create_step chart0 cfg1 None (2, tX)) = ["a1"; "b1"; "c1"; "A"; "B"; "C"; "P"]
+    /\ ms_entered (create_step chart0 cfg1 None (2, tX)) = ["out"]
+    /\ descendants_for chart0 "P" = ["B"; "C"; "A"; "b1"; "b2"; "c1"; "a1"; "a2"; "a21"].
+  Proof. vm_compute. repeat split. Qed.
+
+  (* neither the declaration order nor its reverse (the order of unrepaired sismic) *)
+  Example ex_exit_order_not_declaration :
+    let active_desc := filter (fun d => mem d cfg1) (descendants_for chart0 "P") in
+    active_desc = ["B"; "C"; "A"; "b1"; "c1"; "a1"]
+    /\ rev active_desc ++ ["P"] <> ms_exited (create_step chart0 cfg1 None (2, tX)).
+  Proof. vm_compute. split; [reflexivity|discriminate]. Qed.
+
+  (* a deeper configuration: a2 and its child a21 are active *)
+  Definition cfg2 : list name := ["root"; "P"; "B"; "C"; "A"; "b2"; "c1"; "a2"; "a21"].
+  Example ex_exit_order_deep :
+    ms_exited (create_step chart0 cfg2 None (2, tX)) = ["a21"; "a2"; "b2"; "c1"; "A"; "B"; "C"; "P"].
+  Proof. vm_compute. reflexivity. Qed.
+
+  (* C03_exit_order applies to this step (its hypotheses are satisfiable) *)
+  Example ex_exit_order_applies :
+    let exited := ms_exited (create_step chart0 cfg2 None (2, tX)) in
+    (forall x, In x exited <-> In x cfg2 /\ under chart0 "P" x)
+    /\ NoDup exited
+    /\ (forall l1 x l2 y, exited = l1 ++ x :: l2 -> In y exited -> In x (ancestors_for chart0 y) -> In y l1)
+    /\ (forall l1 x l2 y l3, exited = l1 ++ x :: l2 ++ y :: l3 ->
+          depth_for chart0 x = depth_for chart0 y -> str_ltb x y = true).
+  Proof.
+    pose proof (C03_exit_order chart0 Hne0 Hanc0 Hpc0 Hkn0 Hdc0 cfg2 None (2, tX) "out" eq_refl) as H.
+    cbv zeta in H. destruct H as (_ & _ & H3 & H4 & _ & H6 & H7 & _).
+    cbv zeta. split; [exact H3|]. split; [exact H4|]. split; [exact H6|exact H7].
+  Qed.
+
+  (* ---------------------------------------------------------------- entry order *)
+  (* a transition from out into the nested state a21 enters P, A, a2, a21 top-down *)
+  Definition tIn := tr "out" (Some "a21") None.
+  Example ex_entry_order :
+    ms_entered (create_step chart0 ["root"; "out"] None (3, tIn)) = ["P"; "A"; "a2"; "a21"]
+    /\ ms_exited (create_step chart0 ["root"; "out"] None (3, tIn)) = ["out"].
+  Proof. vm_compute. split; reflexivity. Qed.
+
+  Example ex_entry_order_applies :
+    let entered := ms_entered (create_step chart0 ["root"; "out"] None (3, tIn)) in
+    is_path chart0 (Some "root") entered /\ last entered "a21" = "a21" /\ NoDup entered.
+  Proof.
+    pose proof (C03_entry_order chart0 Hne0 Hanc0 ["root"; "out"] None (3, tIn) "a21" eq_refl) as H.
+    cbv zeta in H. destruct H as (H1 & _ & H3 & _ & H5 & _). cbv zeta. split; [exact H1|].
+    split; [exact H3|exact H5].
+  Qed.
+
+  (* ---------------------------------------------------------------- transition order *)
+  Definition M0 := mkM (init_istate 0 0 false tt) tt ([] : list (obs unit)).
+
+  Example ex_transition_order :
+    sort_transitions unit unit chart0 [(0, tB); (1, tA)] M0 = (M0, inl [(1, tA); (0, tB)])
+    /\ sort_transitions unit unit chart0 [(2, tX); (0, tB)] M0 = (M0, inr ENonDeterminism).
+  Proof. vm_compute. split; reflexivity. Qed.
+
+  Example ex_transition_order_applies :
+    forall l1 a l2 b l3, [(1, tA); (0, tB)] = l1 ++ a :: l2 ++ b :: l3 -> src_before chart0 a b.
+  Proof.
+    intros l1 a l2 b l3 E.
+    destruct (C03_transition_order unit unit chart0 [(0, tB); (1, tA)] M0 M0 [(1, tA); (0, tB)])
+      as (_ & _ & _ & _ & _ & H); [vm_compute; reflexivity|].
+    apply (H l1 a l2 b l3 E).
+  Qed.
+
+  (* ---------------------------------------------------------------- atomicity, end to end *)
+  Definition exec0 (c : call unit) (x : unit) : option (unit * list event) := Some (x, []).
+  Definition eval0 (c : call unit) (x : unit) : option bool := Some true.
+  Definition emit0 (t : Z) (m : meta) (x : unit) : unit * option err := (x, None).
+  Definition run (s : mstate unit unit) := execute_once unit unit exec0 eval0 emit0 chart0 20 0 s.
+
+  (* not yet initialised; the events e and x are waiting in the external queue *)
+  Definition S0 : mstate unit unit :=
+    mkM (mkIState 0 false 0 [] [] [] [] [] []
+                  [(0%Z, mkEvent External "e" []); (0%Z, mkEvent External "x" [])] false tt []) tt [].
+  Definition S1 := fst (run S0).     (* after the initial macro step *)
+  Definition S2 := fst (run S1).     (* after e *)
+  Definition S3 := fst (run S2).     (* after x *)
+
+  Definition steps_of (r : mstate unit unit * (option macrostep + err)) : list microstep :=
+    match snd r with inl (Some (_, l)) => l | _ => [] end.
+
+  (* first macro step: the root, then default entries until stable; the regions of P are entered
+     in name order A, B, C although they are declared B, C, A *)
+  Example ex_first_step :
+    map ms_entered (steps_of (run S0)) = [["root"]; ["P"]; ["A"; "B"; "C"]; ["a1"]; ["b1"]; ["c1"]]
+    /\ map ms_trans (steps_of (run S0)) = [None; None; None; None; None; None]
+    /\ i_config (m_i S1) = ["root"; "P"; "A"; "B"; "C"; "a1"; "b1"; "c1"].
+  Proof. vm_compute. repeat split. Qed.
+
+  Example ex_first_step_applies :
+    i_initialized (m_i S0) = false
+    /\ exists s' t steps, run S0 = (s', inl (Some (t, steps))).
+  Proof. split; [reflexivity|]. eexists. eexists. eexists. vm_compute. reflexivity. Qed.
+
+  (* macro step for e: two transitions (declared tB then tA; executed tA then tB); the first is
+     followed by the default entry of a21 BEFORE the second starts *)
+  Example ex_atomic :
+    exists s' t a1 d1 a2,
+      run S1 = (s', inl (Some (t, [a1; d1; a2])))
+      /\ (ms_trans a1 = Some 1 /\ ms_exited a1 = ["a1"] /\ ms_entered a1 = ["a2"])
+      /\ (ms_trans d1 = None /\ ms_exited d1 = [] /\ ms_entered d1 = ["a21"])
+      /\ (ms_trans a2 = Some 0 /\ ms_exited a2 = ["b1"] /\ ms_entered a2 = ["b2"])
+      /\ atomic_shape [(1, tA); (0, tB)] ([a1] ++ [d1] ++ [a2] ++ [] ++ []).
+  Proof.
+    do 5 eexists. split; [vm_compute; reflexivity|]. repeat split.
+    apply (as_cons (1, tA) [(0, tB)] _ [_] _); [reflexivity|repeat constructor|].
+    apply (as_cons (0, tB) [] _ [] _); [reflexivity|constructor|constructor].
+  Qed.
+
+  (* the hypotheses of C03_atomic hold for this run, and its conclusion *)
+  Example ex_atomic_applies :
+    i_initialized (m_i S1) = true
+    /\ forall s' t steps, run S1 = (s', inl (Some (t, steps))) ->
+         create_stabilization_step unit chart0 (m_i s') = None
+         /\ exists sel ts, sel <> [] /\ sort_transitions unit unit chart0 sel S1 = (S1, inl ts)
+                           /\ atomic_shape ts steps.
+  Proof.
+    split; [reflexivity|]. intros s' t steps H.
+    destruct (C03_atomic unit unit exec0 eval0 emit0 chart0 20 0 S1 s' t steps eq_refl H)
+      as (s0 & s1 & s2 & s3 & sel & H0 & Hsel & _ & _ & _ & Hst & Hcases).
+    split; [exact Hst|].
+    destruct Hcases as [(-> & e & _ & Hb)|(Hne & ts & Hsort & _ & Hshape)].
+    - exfalso. unfold run in H. vm_compute in H. inversion H; subst.
+      inversion Hb as [|? p ps sa a stab sb rest ? Ha Hs Hr]; subst.
+      inversion Hr; subst. destruct stab; discriminate.
+    - exists sel, ts. split; [exact Hne|]. split; [apply Hsort|exact Hshape].
+  Qed.
+
+  (* macro step for x: P -> out exits the three regions innermost first, by name *)
+  Example ex_exit_run :
+    map ms_exited (steps_of (run S2)) = [["a21"; "a2"; "b2"; "c1"; "A"; "B"; "C"; "P"]]
+    /\ map ms_entered (steps_of (run S2)) = [["out"]]
+    /\ i_config (m_i S3) = ["root"; "out"].
+  Proof. vm_compute. repeat split. Qed.
+
+End C03Examples.
+
+Print Assumptions C03_atomic.
+Print Assumptions C03_atomic_first.
+Print Assumptions C03_transition_order.
+Print Assumptions C03_exit_order.
+Print Assumptions C03_entry_order.
+Print Assumptions C03_entry_order_stab.
+Print Assumptions desc_nodup.
+Print Assumptions tree_okb_sound.
+Print Assumptions C03Examples.ex_exit_order_applies.
+Print Assumptions C03Examples.ex_entry_order_applies.
+Print Assumptions C03Examples.ex_atomic_applies.
